@@ -13,6 +13,7 @@ CONSTANTS
   MaxRecs = 4
   MaxStale = 2
   MaxCollide = 1
+  Rebinds = TRUE
   MidEnv = FALSE
 VIEW view
 ACTION_CONSTRAINT Emit
